@@ -308,3 +308,23 @@ def install(prog):
         from .bi_str import fmt_push
         fmt_push(a[1], D(a[0]).fields[0])
         return ok(UNIT)
+
+    # ---------------------------------------------------------------- clap::ArgMatches stand-in built by harnesses:
+    # Agg('ArgMatches', (MapV name -> VecV of values, MapV flag -> bool))
+    @B('ArgMatches::values_of', 'clap::ArgMatches::values_of')
+    def b_values_of(ctx, a, callee):
+        from .bi_core import it_seq
+        m = D(a[0])
+        v = m.fields[0].get(D(a[1]))
+        return some(it_seq(v.items)) if v is not None else NONE
+
+    @B('ArgMatches::value_of', 'clap::ArgMatches::value_of')
+    def b_value_of(ctx, a, callee):
+        m = D(a[0])
+        v = m.fields[0].get(D(a[1]))
+        return some(v.items[0]) if v is not None and v.items else NONE
+
+    @B('ArgMatches::is_present', 'clap::ArgMatches::is_present')
+    def b_is_present(ctx, a, callee):
+        m = D(a[0])
+        return bool(m.fields[1].get(D(a[1]), False)) or m.fields[0].has(D(a[1]))
